@@ -5,7 +5,7 @@ pid, mk, pkg, conf = sys.argv[1:5]
 src = "/tmp/seedout/%s/%s" % (pid, mk)
 dst = "/verif/seeded/%s-%s" % (pid, mk)
 os.makedirs(dst, exist_ok=True)
-shutil.copy(src + "/patch.diff", dst)
+shutil.copy(src + ("/patch.rebased.diff" if os.path.exists(src + "/patch.rebased.diff") else "/patch.diff"), dst + "/patch.diff")
 for f in os.listdir(src):
     if f.startswith("demo"):
         if os.path.isdir(src + "/" + f):
